@@ -533,9 +533,9 @@ func (g *Gen) Heredoc() ast.Vertex {
 		} else {
 			parts = append(parts, g.strPart(endNL))
 		}
-	} else if indent != "" || (g.O.Flexible && g.O.NoEmptyHeredoc73) {
+	} else if indent != "" || ((g.O.Flexible || g.O.Common) && g.O.NoEmptyHeredoc73) {
 		// empty body: under >= 7.3 this is the open finding empty-heredoc-73
-		if g.O.Flexible && g.O.NoEmptyHeredoc73 {
+		if (g.O.Flexible || g.O.Common) && g.O.NoEmptyHeredoc73 {
 			g.Excl["empty-heredoc-73"]++
 			parts = append(parts, g.strPart("x"+endNL))
 		}
